@@ -1,3 +1,135 @@
 package main
 
-func selftest(c *Config, only string) int { return 0 }
+import (
+	"fmt"
+	"os"
+	"path/filepath"
+	"sort"
+	"strings"
+	"sync"
+)
+
+// mutant is one in-memory edit of the repository used to test the checker both ways.
+// It is applied through packages.Config.Overlay: /repo is never modified.
+type mutant struct {
+	Name   string
+	Prop   string
+	File   string // relative to the repository root
+	Old    string // must occur exactly once in File
+	New    string
+	Rule   string // rule expected to fire ("" for a benign refactoring: nothing new may fire)
+	Key    string // substring expected in the key of the new violation
+	Benign bool
+}
+
+var mutants []mutant
+
+func addMutants(ms ...mutant) { mutants = append(mutants, ms...) }
+
+type selfResult struct {
+	m      mutant
+	ok     bool
+	detail string
+}
+
+func failingKeys(r *Report) map[string]string {
+	out := map[string]string{}
+	for _, o := range r.Obls {
+		if !o.OK {
+			out[o.Rule+" "+o.Key] = o.Detail
+		}
+	}
+	for i, e := range r.Errors {
+		out[fmt.Sprintf("check-failure %d", i)] = e
+	}
+	return out
+}
+
+// runMutant applies m in an overlay and reports whether the expected rule fires.
+func runMutant(c *Config, m mutant, base map[string]string) selfResult {
+	path := filepath.Join(c.Repo, m.File)
+	b, err := os.ReadFile(path)
+	if err != nil {
+		return selfResult{m, false, err.Error()}
+	}
+	src := string(b)
+	if n := strings.Count(src, m.Old); n != 1 {
+		return selfResult{m, false, fmt.Sprintf("mutant does not apply: pattern occurs %d times in %s (the repository changed; update the mutant)", n, m.File)}
+	}
+	mc := &Config{Repo: c.Repo, Verif: c.Verif, Tier: "quick", Quiet: true, Overlay: map[string][]byte{path: []byte(strings.Replace(src, m.Old, m.New, 1))}}
+	r := runProp(mc, m.Prop)
+	got := failingKeys(r)
+	var fresh []string
+	for k := range got {
+		if _, ok := base[k]; !ok {
+			fresh = append(fresh, k)
+		}
+	}
+	sort.Strings(fresh)
+	if m.Benign {
+		if len(fresh) == 0 {
+			return selfResult{m, true, "silent"}
+		}
+		return selfResult{m, false, "benign refactoring raised: " + strings.Join(fresh, "; ") + " :: " + got[fresh[0]]}
+	}
+	for _, k := range fresh {
+		if strings.HasPrefix(k, m.Rule+" ") && strings.Contains(k, m.Key) {
+			return selfResult{m, true, "killed by " + k}
+		}
+	}
+	if len(fresh) > 0 {
+		return selfResult{m, false, "expected " + m.Rule + " [" + m.Key + "], got: " + strings.Join(fresh, "; ") + " :: " + got[fresh[0]]}
+	}
+	return selfResult{m, false, "survived: no new violation"}
+}
+
+func selftest(c *Config, only string) int {
+	byProp := map[string][]mutant{}
+	for _, m := range mutants {
+		if only == "" || m.Prop == only {
+			byProp[m.Prop] = append(byProp[m.Prop], m)
+		}
+	}
+	var ids []string
+	for id := range byProp {
+		ids = append(ids, id)
+	}
+	sort.Strings(ids)
+	exit := 0
+	total, okN := 0, 0
+	for _, id := range ids {
+		bc := &Config{Repo: c.Repo, Verif: c.Verif, Tier: "quick", Quiet: true}
+		base := failingKeys(runProp(bc, id))
+		ms := byProp[id]
+		res := make([]selfResult, len(ms))
+		var wg sync.WaitGroup
+		sem := make(chan struct{}, 6)
+		for i := range ms {
+			wg.Add(1)
+			go func(i int) {
+				defer wg.Done()
+				sem <- struct{}{}
+				defer func() { <-sem }()
+				res[i] = runMutant(c, ms[i], base)
+			}(i)
+		}
+		wg.Wait()
+		for _, x := range res {
+			total++
+			st := "ok  "
+			if x.ok {
+				okN++
+			} else {
+				st = "FAIL"
+				exit = 1
+			}
+			kind := "mutant"
+			if x.m.Benign {
+				kind = "benign"
+			}
+			fmt.Printf("%s %s %s %-40s %s\n", st, id, kind, x.m.Name, x.detail)
+		}
+	}
+	fmt.Printf("selftest: %d/%d as expected\n", okN, total)
+	return exit
+}
